@@ -63,6 +63,39 @@ fn json_input_matches_mapping_io_error() { json_mapping(1); }
 #[kani::stub(serde_json::Error::is_io, is_io_contract)]
 fn json_input_matches_mapping_syntax_error() { json_mapping(2); }
 
+// Non-I/O trial outcomes with REAL serde_json errors: the stub runs the real parser on a concrete one-token text, so
+// the error is a genuine Syntax- / Eof-category error (unit ErrorCode variants, cheap to drop) and is_io() / is_eof()
+// are serde_json's own.  "a candidate format that runs out of input or meets a syntax error is simply skipped".
+static mut REAL_TEXT_EMPTY: bool = false;
+fn real_error() -> Result<(), serde_json::Error> {
+	unsafe { TRIAL_RAN += 1; }
+	// (reader front end: serde_json's str / slice front ends locate error positions with memchr, whose CPU feature
+	// detection is inline assembly that Kani cannot execute)
+	let text: &[u8] = if unsafe { REAL_TEXT_EMPTY } { b"" } else { b"!" };
+	let mut de = serde_json::Deserializer::from_reader(text);
+	de::IgnoredAny::deserialize(&mut de).and(Ok(()))
+}
+fn str_real(_input: &str) -> Result<(), serde_json::Error> { real_error() }
+fn reader_real<R: Read>(_input: R) -> Result<(), serde_json::Error> { real_error() }
+fn json_mapping_real(empty: bool) {
+	unsafe { REAL_TEXT_EMPTY = empty; }
+	let b = [b'a', b'b'];
+	let r = input_matches(Ref::Slice(&b));
+	assert!(unsafe { TRIAL_RAN } == 1);
+	assert!(matches!(r, Ok(false)), "a candidate that runs out of input or meets a syntax error must simply be skipped");
+	std::mem::forget(r);
+}
+#[kani::proof]
+#[kani::unwind(5)]
+#[kani::stub(match_input_str, str_real)]
+#[kani::stub(match_input_reader, reader_real)]
+fn json_input_matches_real_syntax_error_is_skipped() { json_mapping_real(false); }
+#[kani::proof]
+#[kani::unwind(5)]
+#[kani::stub(match_input_str, str_real)]
+#[kani::stub(match_input_reader, reader_real)]
+fn json_input_matches_real_eof_error_is_skipped() { json_mapping_real(true); }
+
 
 // ---- U-JSN framing: one line per document (C03), writer faults surface (C12) --------------------------
 // (transcode_from cannot be treated the same way: transcode::stream::Error is private to the transcode module, so
